@@ -22,8 +22,8 @@ CONTRACT_GROUPS = ['C10']   # icontract layer (vlib/contracts.py) active inside 
 RULE = ("case = one configuration with R x P injected sample vectors; an entry is non-trivial if its raw value x + m*s lies outside the bounds (boundary semantics exercised) "
         "- counted per boundary type; a case is non-trivial if it has such an entry; distinct key = case index")
 ASSUMPTIONS = ["variables inside the bounds; magnitudes positive"]
-REQUIRED = {"quick": {"entries_checked": 32228, "outside.NONE": 800, "outside.TRUNCATE_BOTH": 800, "outside.MIRROR_BOTH": 800, "mirror_single_reflection": 300, "relative_magnitude_entries": 2000, "evaluator_rows_checked": 3000, "with_variable_scaler": 400, "with_section_objects_used_before": 400, "__nontrivial__": 400},
-            "thorough": {"entries_checked": 2161249, "outside.NONE": 30000, "outside.TRUNCATE_BOTH": 30000, "outside.MIRROR_BOTH": 30000, "mirror_single_reflection": 10000, "relative_magnitude_entries": 80000, "evaluator_rows_checked": 100000, "with_variable_scaler": 25000, "with_section_objects_used_before": 25000, "__nontrivial__": 15000}}
+REQUIRED = {"quick": {"entries_checked": 32228, "outside.NONE": 800, "outside.TRUNCATE_BOTH": 800, "outside.MIRROR_BOTH": 800, "mirror_single_reflection": 300, "relative_magnitude_entries": 2000, "evaluator_rows_checked": 3000, "with_variable_scaler": 400, "with_section_objects_used_before": 400, "mirror_symmetry_pairs": 600, "__nontrivial__": 400},
+            "thorough": {"entries_checked": 2161249, "outside.NONE": 30000, "outside.TRUNCATE_BOTH": 30000, "outside.MIRROR_BOTH": 30000, "mirror_single_reflection": 10000, "relative_magnitude_entries": 80000, "evaluator_rows_checked": 100000, "with_variable_scaler": 25000, "with_section_objects_used_before": 25000, "mirror_symmetry_pairs": 40000, "__nontrivial__": 15000}}
 N = {"quick": 3000, "thorough": 200000}
 NAMES = {1: "NONE", 2: "TRUNCATE_BOTH", 3: "MIRROR_BOTH"}
 
@@ -70,7 +70,7 @@ def run_case(case, obs):
     retain = bool(rng.random() < 0.4)
     if retain:
         for smp in spec["samplers"]:
-            smp["options"]["retain"] = True
+            smp["options"]["retain"] = True if rng.random() < 0.5 else "read-only"
         obs.count("with_sampler_that_keeps_its_sample_array")
     case["spec"] = spec
     # a variable scaler must not change what happens in the user's coordinates (magnitudes and bounds are user-domain settings)
@@ -158,6 +158,28 @@ def run_case(case, obs):
         obs.count("evaluator_rows_checked", R * P)
         if not (np.array_equal(rows, got) if T is None else np.allclose(rows, got, rtol=1e-12, atol=1e-14)):
             obs.violation("evaluator_rows_differ_from_reported", rows=rows, reported=got)
+        if k_eval == 0 and T is None and not two:
+            # both bounds are treated alike: the problem reflected in the middle of the bound interval (start point and samples
+            # reflected for the variables with two finite bounds) gives the reflected perturbed vectors - whatever number of
+            # reflections an overshoot of many bound widths needs
+            fin = np.isfinite(lb) & np.isfinite(ub)
+            if fin.any():
+                specm = dict(spec)
+                xm = np.where(fin, lb + ub - x_first, x_first)
+                specm["x0"] = xm.tolist()
+                specm["samplers"] = [{"method": "verif/design", "options": {"samples": np.where(fin, -samples, samples).tolist()}}]
+                evm = ens.RecordingEvaluator(specm)
+                _, gm = EnsembleEvaluator(ens.make_config(specm), None, evm, ens.plugin_manager()).calculate(xm, compute_functions=True, compute_gradients=True)
+                gotm = np.asarray(gm.evaluations.perturbed_variables)
+                wantm = np.where(fin, lb + ub - got, got)
+                obs.count("mirror_symmetry_pairs")
+                okm = np.abs(gotm - wantm) <= 1e-9 * (1 + np.abs(wantm) + np.abs(x_first) + np.where(fin, np.abs(lb) + np.abs(ub), 0.0))
+                if not okm.all():
+                    r_, p_, v_ = (int(t) for t in np.argwhere(~okm)[0])
+                    obs.violation("bounds_not_treated_alike", variable=v_, btype=NAMES[int(btypes[v_])], lb=float(lb[v_]), ub=float(ub[v_]), x=float(x_first[v_]),
+                                  raw=float(raw[r_, p_, v_]), got=float(got[r_, p_, v_]), reflected_problem_got=float(gotm[r_, p_, v_]),
+                                  reflected_problem_expected=float(wantm[r_, p_, v_]))
+                    return
     if nontriv:
         obs.nontrivial(case["i"])
     obs.feature("path." + path)
